@@ -288,14 +288,12 @@ def parseDate (s : Bytes) : Out Int :=
 
 def thirtyYearsUs : Int := 946684800000000
 
-/-- `DateTime::from_timestamp_millis` accepts what fits chrono's date range -/
-def tsMsInRange (ms : Int) : Bool :=
-  dateInRange (ms / 86400000)
-
-/-- `NaiveTime` Display fraction: nothing, `.mmm` (chrono prints 3, 6 or 9 digits; only whole
-milliseconds can occur here) -/
-def fmtFrac (msPart : Int) : Bytes :=
-  if msPart = 0 then [] else 46 :: padZero 3 (natDigits msPart.natAbs)
+/-- `NaiveTime` Display fraction of a µs count: nothing, `.mmm` or `.uuuuuu` (chrono prints 3, 6
+or 9 digits, whichever is exact) -/
+def fmtFracUs (fr : Int) : Bytes :=
+  if fr = 0 then []
+  else if fr % 1000 = 0 then 46 :: padZero 3 (natDigits (fr / 1000).natAbs)
+  else 46 :: padZero 6 (natDigits fr.natAbs)
 
 def fmtHms (secOfDay : Int) : Bytes :=
   fmt2 (secOfDay / 3600) ++ [58] ++ fmt2 (secOfDay / 60 % 60) ++ [58] ++ fmt2 (secOfDay % 60)
@@ -305,29 +303,26 @@ def tsFallback (us : Int) : Bytes :=
   [60, 116, 105, 109, 101, 115, 116, 97, 109, 112, 32, 111, 117, 116, 32, 111, 102, 32, 114, 97,
    110, 103, 101, 58, 32] ++ intDigits us ++ [32, 117, 115, 62]
 
-/-- `to_naive_utc`: the i64 subtraction does not overflow and chrono can represent the instant -/
+/-- `to_naive_utc`: the i64 subtraction does not overflow and `from_timestamp_micros` can
+represent the instant (floor division into seconds, then days) -/
 def tsPrintable (us : Int) : Bool :=
-  !(decide (us - thirtyYearsUs < i64Lo)) && tsMsInRange (Int.tdiv (us - thirtyYearsUs) 1000)
+  !(decide (us - thirtyYearsUs < i64Lo)) && dateInRange ((us - thirtyYearsUs) / 86400000000)
 
-/-- `Timestamp::fmt`: `(us - 30y) / 1000` (i64, truncating; the subtraction overflows below
-`i64::MIN + 30y`), `from_timestamp_millis`; unrepresentable values print a fallback text (they used to panic);
-then `naive_sys_fmt`:
-years < 0 as `-year … BC`, otherwise chrono's `NaiveDateTime` Display. -/
+/-- `Timestamp::fmt` (after the fix of the sub-second / BC-year findings): µs − 30 y, split by
+FLOOR division into day, second of day and µs fraction; unrepresentable values print a fallback
+text; `naive_sys_fmt`: years < 0 as `<-year printed like %Y> … BC`, otherwise chrono's
+`NaiveDateTime` Display; the fraction is printed in both forms. -/
 def displayTimestamp (us : Int) : Out Bytes :=
-  if us - thirtyYearsUs < i64Lo then .ok (tsFallback us)
+  if !tsPrintable us then .ok (tsFallback us)
   else
-    let ms := Int.tdiv (us - thirtyYearsUs) 1000
-    if !tsMsInRange ms then .ok (tsFallback us)
+    let u := us - thirtyYearsUs
+    let secs := u / 1000000
+    let c := civilFromDays (secs / 86400)
+    let time := fmtHms (secs % 86400) ++ fmtFracUs (u % 1000000)
+    if c.1 < 0 then
+      .ok (fmtYmd (-c.1) c.2.1 c.2.2 ++ [32] ++ time ++ [32, 66, 67])
     else
-      let day := ms / 86400000
-      let msOfDay := ms % 86400000
-      let (y, m, d) := civilFromDays day
-      let time := fmtHms (msOfDay / 1000)
-      if y < 0 then
-        .ok (padZero 4 (natDigits y.natAbs) ++ [45] ++ fmt2 m ++ [45] ++ fmt2 d ++ [32] ++ time ++
-             [32, 66, 67])
-      else
-        .ok (fmtYmd y m d ++ [32] ++ time ++ fmtFrac (msOfDay % 1000))
+      .ok (fmtYmd c.1 c.2.1 c.2.2 ++ [32] ++ time)
 
 /-- `TimestampTz::fmt` with the (only) system offset `+00:00` (no suffix on the fallback text) -/
 def displayTimestampTz (us : Int) : Out Bytes :=
@@ -407,45 +402,56 @@ def parseTsSuffix (s0 : Bytes) : Option (Bool × Option Int) :=
 /-- the general tail of `from_str`: `tz = false` is `Timestamp` (the offset is parsed and ignored),
 `tz = true` is `TimestampTz` (offset must be below 24 h; it is subtracted before the BC year
 mirroring, as `naive_utc_to_timestamp(&dt.naive_utc(), is_bc)` does). -/
-def finishTimestamp (tz : Bool) (y m d h mi se : Int) (bc : Bool) (off : Option Int) : Out Int :=
+def finishTimestamp (tz : Bool) (y m d h mi se fr : Int) (bc : Bool) (off : Option Int) : Out Int :=
   let off' : Int := if tz then off.getD 0 else 0
   if tz ∧ ¬ (-86400 < off' ∧ off' < 86400) then .err
+  else if off' = 0 then
+    let y' := if bc then -y else y
+    if bc ∧ ¬ (chronoMinYear ≤ y' ∧ validYmd y' m d) then .err
+    else .ok (timestampOfCivil y' m d h mi se + fr)
   else
     let total := daysFromCivil y m d * 86400 + h * 3600 + mi * 60 + se - off'
     let c := civilFromDays (total / 86400)
     let y' := if bc then -c.1 else c.1
     if bc ∧ ¬ (chronoMinYear ≤ y' ∧ validYmd y' c.2.1 c.2.2) then .err
-    else .ok ((daysFromCivil y' c.2.1 c.2.2 * 86400 + total % 86400) * 1000000 + thirtyYearsUs)
+    else .ok ((daysFromCivil y' c.2.1 c.2.2 * 86400 + total % 86400) * 1000000 + thirtyYearsUs + fr)
 
-/-- `Timestamp::from_str` restricted to the shapes `Display` produces (`… HH:MM:SS`, optional
-` BC`; any other suffix, e.g. a fraction, is rejected).  `none` = outside the modelled grammar
-(time-zone suffixes, ` AD`), the driver then answers `unmodelled`. -/
+/-- chrono `%.f`: nothing, or `.` followed by 1..9 digits (nanoseconds, right padded; further
+digits are skipped).  Returns the µs (nanoseconds truncated) and the rest; `none` = error. -/
+def scanFrac : Bytes → Option (Int × Bytes)
+  | 46 :: r =>
+    let p := takeDigits 9 r
+    if p.1.isEmpty then none
+    else some (((parseNat p.1 * 10 ^ (9 - p.1.length) / 1000 : Nat) : Int), p.2.dropWhile isDigit)
+  | s => some (0, s)
+
+/-- `Timestamp::from_str`: `%Y-%m-%d %H:%M:%S%.f`, then nothing / `AD` / `BC` / `%z` offset (ignored)
+in the eight accepted arrangements.  `none` = outside the model (leap second `:60`). -/
 def parseTimestamp (s : Bytes) : Option (Out Int) :=
   match scanYmdHms s with
-  | some (y, m, d, h, mi, se, rest) =>
-    if ¬ (chronoMinYear ≤ y ∧ y ≤ chronoMaxYear ∧ validYmd y m d ∧ h ≤ 23 ∧ mi ≤ 59 ∧ se ≤ 60) then some .err
-    else if rest = [] then
-      if se = 60 then none else some (.ok (timestampOfCivil y m d h mi se))
-    else if rest = [32, 66, 67] then
-      -- `with_year(-year)`: Feb 29 may not exist in the mirrored year
-      if se = 60 then none
-      else if ¬ (chronoMinYear ≤ -y ∧ validYmd (-y) m d) then some .err
-      else some (.ok (timestampOfCivil (-y) m d h mi se))
-    else if se = 60 then none
-    else match parseTsSuffix rest with
-      | none => some .err          -- e.g. a fraction: `%S` does not take it
-      | some (bc, off) => some (finishTimestamp false y m d h mi se bc off)
+  | some (y, m, d, h, mi, se, rest0) =>
+    match scanFrac rest0 with
+    | none => some .err
+    | some (fr, rest) =>
+      if ¬ (chronoMinYear ≤ y ∧ y ≤ chronoMaxYear ∧ validYmd y m d ∧ h ≤ 23 ∧ mi ≤ 59 ∧ se ≤ 60) then some .err
+      else if se = 60 then none
+      else match parseTsSuffix rest with
+        | none => some .err
+        | some (bc, off) => some (finishTimestamp false y m d h mi se fr bc off)
   | none => some .err     -- every accepted format starts with `%Y-%m-%d %H:%M:%S`
 
 /-- `TimestampTz::from_str` (system offset +00:00) -/
 def parseTimestampTz (s : Bytes) : Option (Out Int) :=
   match scanYmdHms s with
-  | some (y, m, d, h, mi, se, rest) =>
-    if ¬ (chronoMinYear ≤ y ∧ y ≤ chronoMaxYear ∧ validYmd y m d ∧ h ≤ 23 ∧ mi ≤ 59 ∧ se ≤ 60) then some .err
-    else if se = 60 then none
-    else match parseTsSuffix rest with
-      | none => some .err
-      | some (bc, off) => some (finishTimestamp true y m d h mi se bc off)
+  | some (y, m, d, h, mi, se, rest0) =>
+    match scanFrac rest0 with
+    | none => some .err
+    | some (fr, rest) =>
+      if ¬ (chronoMinYear ≤ y ∧ y ≤ chronoMaxYear ∧ validYmd y m d ∧ h ≤ 23 ∧ mi ≤ 59 ∧ se ≤ 60) then some .err
+      else if se = 60 then none
+      else match parseTsSuffix rest with
+        | none => some .err
+        | some (bc, off) => some (finishTimestamp true y m d h mi se fr bc off)
   | none => some .err
 
 /-! ### interval (src/types/interval.rs) -/
